@@ -18,7 +18,7 @@ FILES = [BOXES, "/repo/sdk/src/utils/io_utils.rs"]
 
 
 def caps(tier):
-    return dict(data=40) if tier == "quick" else dict(data=64)
+    return dict(data=40, super=72) if tier == "quick" else dict(data=64, super=90)
 
 
 def _opaque(name):
@@ -37,11 +37,22 @@ OVERRIDES.update({
     "CAISaltContentBox::new": _opaque("CAISaltContentBox"), "JUMBFJSONContentBox::new": _opaque("JUMBFJSONContentBox"),
     "JUMBFCBORContentBox::new": _opaque("JUMBFCBORContentBox"),
     "Vec::with_capacity": lambda I, a, pc: VStr(bstr.lit("")),
+    "JUMBFSuperBox::from": _opaque("JUMBFSuperBox"), "JUMBFSuperBox::add_data_box": lambda I, a, pc: VUnit(),
+    "Box::new": lambda I, a, pc: VStruct("BoxDyn", {}),
+    "JUMBFPaddingContentBox::new": _opaque("JUMBFPaddingContentBox"), "JUMBFPaddingContentBox::new_with_vec": _opaque("JUMBFPaddingContentBox"),
+    "JUMBFCodestreamContentBox::new": _opaque("JUMBFCodestreamContentBox"), "JUMBFCompressedContentBox::new": _opaque("JUMBFCompressedContentBox"),
+    "JUMBFUUIDContentBox::new": _opaque("JUMBFUUIDContentBox"), "JUMBFEmbeddedFileDescriptionBox::from": _opaque("JUMBFEmbeddedFileDescriptionBox"), "JUMBFEmbeddedFileDescriptionBox::new": _opaque("JUMBFEmbeddedFileDescriptionBox"),
+    "JUMBFEmbeddedFileContentBox::new": _opaque("JUMBFEmbeddedFileContentBox"),
 })
 
 
 def LITS():
-    return ms.boxtype_consts(BOXES)
+    import re
+    out = ms.boxtype_consts(BOXES)
+    # associated consts of `impl BoxReader` (read from the source on every run)
+    for m in re.finditer(r"^\s*const\s+(MAX_JUMB_DEPTH)\s*:\s*usize\s*=\s*(\d+)\s*;", open(BOXES, errors="replace").read(), re.M):
+        out[m.group(1)] = VInt(int(m.group(2)))
+    return out
 
 
 def make_queries(tier):
@@ -80,6 +91,26 @@ def make_queries(tier):
         E.cover("json box accepted", is_ok(r1))
         E.cover("cbor box rejected", z3.Not(is_ok(r2)))
 
+    def q_jumbf_super_box(E):
+        """BoxReader::read_super_box (nested super boxes, every content box kind) on every stream and start position: no panic"""
+        d = E.str("data", C["super"], "bytes")
+        pos = E.int("start", 4)
+        if E.mode != "symbolic":
+            E.native("jumbf_super_box", [_j(d), _j(pos)])
+            return
+        I = E.I
+        I.loop_bound = 6          # label bytes / boxes per level
+        I.recursion_bound = 3     # nesting levels explored (the routine's own limit is MAX_JUMB_DEPTH = 32)
+        I.buffer_cap = C["super"]
+        # the description box keeps its label (read_super_box_impl asks whether it is empty)
+        I.overrides["JUMBFDescriptionBox::from"] = lambda I_, a, pc: VStruct("JUMBFDescriptionBox", {"label": a[2]})
+        I.overrides["JUMBFDescriptionBox::new"] = lambda I_, a, pc: VStruct("JUMBFDescriptionBox", {"label": VStr(bstr.lit(""))})
+        I.overrides["JUMBFDescriptionBox::label"] = lambda I_, a, pc: a[0].fields["label"]
+        r = E.call("BoxReader::read_super_box", ms.stream(d, pos))
+        E.cover("a super box with a nested super box accepted", z3.And(is_ok(r), uge(d.e.n, bv(60))))
+        E.cover("rejected", z3.Not(is_ok(r)))
+
+    # q_jumbf_super_box is not run: the nested reader did not finish symbolic execution within 20 min (recursion x nine box kinds)
     return [q_jumbf_desc_box, q_jumbf_content_boxes]
 
 
